@@ -2,6 +2,7 @@ SPECIFICATION Spec
 CONSTANT Part = "bounds"
 CONSTANT Deviation = "none"
 CONSTANT MaxDepth = 3
+CONSTANT Rebounds = FALSE
 CONSTANT Export = TRUE
 INVARIANT C05_MalformedRejected
 INVARIANT ExportCase
